@@ -68,6 +68,9 @@ fn header_strategy() -> impl Strategy<Value = (String, String)> {
         4 => ("[a-z]{1,8}", proptest::option::of("[A-Za-z0-9._]{1,12}")).prop_map(|(n, f)| ("Content-Disposition".to_string(), match f { Some(f) => format!("form-data; name=\"{}\"; filename=\"{}\"", n, f), None => format!("form-data; name=\"{}\"", n) })),
         2 => prop::sample::select(vec!["text/plain", "application/octet-stream", "image/png", "text/plain; charset=utf-8"]).prop_map(|v| ("Content-Type".to_string(), v.to_string())),
         2 => ("[A-Za-z][A-Za-z0-9-]{0,15}", "[!-~]([ -~]{0,30}[!-~])?"),
+        // non-ASCII file names, long values (lengths around 64 .. 8192, single- and multi-byte characters)
+        1 => ("[a-z]{1,8}", prop::sample::select(vec!["résumé.pdf", "日本語.txt", "a b.txt", "😀.png", "naïve (1).doc"])).prop_map(|(n, f)| ("Content-Disposition".to_string(), format!("form-data; name=\"{}\"; filename=\"{}\"", n, f))),
+        1 => ("[A-Za-z][A-Za-z0-9-]{0,15}", crate::fw::greq::long_text().prop_map(|b| String::from_utf8_lossy(&b.0).trim().to_string()).prop_filter("empty", |s| !s.is_empty())),
     ]
 }
 
